@@ -64,7 +64,8 @@ pub fn check_ins(
                 reported = true;
                 let key = fnv64(sig.as_bytes());
                 let corehash = if core {
-                    let mut parts: Vec<u64> = vec![fnv64(line.as_bytes()), b.salt as u64];
+                    // the instruction in the harness's own rendering: the fingerprint must not depend on how the assembler spells its output
+                    let mut parts: Vec<u64> = vec![fnv64(ins.ir().as_bytes()), b.salt as u64];
                     for i in 0..14 {
                         parts.push(pre[i] as u64);
                         parts.push(post[i] as u64);
